@@ -203,6 +203,8 @@ def run_comp(ops):
                     c.add_note(x)
             elif tg == "select":
                 c.selected_tracks = list(op[1])
+            elif tg == "add_bar_obj":                     # a Bar handed to the composition: every selected track gets it as a bar
+                c.add_note(Bar(op[1], (op[2], num(op[3]))))
             elif tg == "track_add":                       # music put on ONE track directly (not through the composition)
                 c.tracks[op[1]].add_notes(content(op[2]), num(op[3]))
         except Exception:
